@@ -1,5 +1,6 @@
 pub mod cup;
 pub mod resp;
+pub mod sm;
 pub mod time;
 pub mod uri;
 pub mod version;
